@@ -503,6 +503,30 @@ def coq_cases(payload, obs):
     return out
 
 
+def c_dtree(t):
+    return f"(DNode {c_items(t['items'])} {core.clist('(' + _lab(n) + ', ' + c_dtree(c) + ')' for n, c in t['children'])})"
+
+
+def tree_units(payload, obs):
+    """[(label, coq text)]: the nested view of the data / scene tree, the keys to_dict wrote, what came back."""
+    out = []
+    for name, tr in sorted((obs.get("trees") or {}).items()):
+        if not tr["orig"]["items"] and not tr["orig"]["children"]:
+            continue        # a tree that is only an empty root
+        back = "None" if tr["back"] is None else f"(Some {c_dtree(tr['back'])})"
+        out.append((name, f"(mk_tcase {c_dtree(tr['orig'])} {core.clist(_lab(k) for k in tr['keys'])} {back})"))
+    return out
+
+
+def emit_tree_file(texts) -> str:
+    body = ";\n  ".join(texts)
+    return ("From Coq Require Import ZArith List String.\nFrom PyxelV Require Import Model.Codec Model.CodecTree.\n"
+            "Import ListNotations.\nOpen Scope string_scope.\n"
+            f"Definition tcases : list tree_case := [\n  {body}\n].\n"
+            "Eval vm_compute in tree_mismatches slash hash tcases.\n"
+            "Eval vm_compute in tree_violations tcases.\n")
+
+
 def emit_file(texts) -> str:
     body = ";\n  ".join(texts)
     return ("From Coq Require Import ZArith List String.\nFrom PyxelV Require Import Model.Codec.\n"
@@ -730,11 +754,33 @@ def correspondence(ctx: Ctx, payloads, tag="c"):
             units.append((p, o, lab, txt))
     per = 30
     files = {f"{tag}_{k // per:03d}": emit_file([u[3] for u in units[k:k + per]]) for k in range(0, len(units), per)}
+    # the nested view of every data / scene tree against Model/CodecTree.v (flattening + escaping, rebuilding)
+    tunits = [(p, o, lab, txt) for p, o in zip(payloads, obs) if isinstance(o, dict) and o.get("trees")
+              for lab, txt in tree_units(p, o)]
+    tper = 60
+    tfiles = {f"{tag}t_{k // tper:03d}": emit_tree_file([u[3] for u in tunits[k:k + tper]]) for k in range(0, len(tunits), tper)}
+    files.update(tfiles)
     res = core.coq_eval_many(ctx, files, timeout=900, par=8)
     for name in sorted(files):
         if not res[name][0] or len(res[name][1]) != 2:      # retry once, alone
             res[name] = core.coq_eval(ctx, name, files[name], 900)
+    ctx.cov["tree_cases_note"] = ("tree_cases = data / scene trees compared in their NESTED form against Model/CodecTree.v "
+                                  "(keys written by to_dict = flatten + escape; rebuilt tree = unescape + nest)")
     mism, viol = [], []
+    for k, name in enumerate(sorted(tfiles)):
+        ok, evals, se = res[name]
+        chunk = tunits[k * tper:(k + 1) * tper]
+        if not ok or len(evals) != 2:
+            ctx.broken.append(Broken("correspondence", f"case file {name}.v did not evaluate", core.tail(se, 15)))
+            continue
+        for i in core.parse_int_list(evals[0]):
+            p, o, lab, _ = chunk[i]
+            ctx.broken.append(Broken("correspondence", "Model/CodecTree.v (flattening / nesting of a DataTree) vs implementation",
+                                     f"{p['route']} {p['spec']['kind']}: the {lab} tree: keys written {o['trees'][lab]['keys']}", p))
+        ctx.count("tree_cases", len(chunk))
+        ctx.cov["tree_spec_violations"] = ctx.cov.get("tree_spec_violations", 0) + len(core.parse_int_list(evals[1]))
+    for name in tfiles:
+        files.pop(name)
     for k, name in enumerate(sorted(files)):
         ok, evals, se = res[name]
         chunk = units[k * per:(k + 1) * per]
